@@ -101,3 +101,20 @@ Theorem C14_legacy_max_fee_refuted :
   rr_out (recv ex_cfg ex_env ex_world (ex_packet (hyp_bad_fee "x" 0)) []) = OAckOk /\
   rr_out (recv ex_cfg ex_env ex_world (ex_packet (hyp_bad_fee "uusdc" 5)) []) = OAckOk.
 Proof. vm_compute. repeat split; reflexivity. Qed.
+
+(* finding 18 (C17): a genesis whose dispatched-amount entry carries a denomination that is not a valid one -
+   here one containing the key terminator.  The pinned DispatchedAmountEntry.Validate only required a non-empty
+   denomination, so validation accepted what InitGenesis cannot store (the denomination is a non-terminal
+   string of the by-destination index key); the repaired validation refuses it. *)
+From Orbiter Require Import Model.Genesis.
+Definition amount_valid_legacy (a : gen_amount) : bool :=
+  negb (String.eqb (ga_denom a) "") && ccid_ok (ga_src a) && ccid_ok (ga_dst a) &&
+  (0 <=? ga_in a) && (0 <=? ga_out a) && ((0 <? ga_in a) || (0 <? ga_out a)).
+Definition nul_denom_entry : gen_amount :=
+  {| ga_src := Some {| c_proto := protocol_ibc; c_cp := "channel-0" |}; ga_dst := Some {| c_proto := protocol_cctp; c_cp := "0" |};
+     ga_denom := String "a" (String "000" "b"); ga_in := 1; ga_out := 1 |}.
+Theorem C17_legacy_denom_refuted :
+  amount_valid_legacy nul_denom_entry = true /\
+  set_amount empty_ostate nul_denom_entry = Err "key encoding: string contains the terminator" /\
+  amount_valid nul_denom_entry = false.
+Proof. vm_compute. repeat split; reflexivity. Qed.
